@@ -19,6 +19,13 @@ impl<K, V> HashMap<K, V> {
             self@.contains_key(*k) ==> r == Some(&self@[*k]),
             !self@.contains_key(*k) ==> r is None,
     { unimplemented!() }
+    // the returned borrow is the entry's value; when it ends, the map holds what was written through it
+    #[verifier::external_body]
+    pub fn get_mut(&mut self, k: &K) -> (r: Option<&mut V>)
+        ensures
+            old(self)@.contains_key(*k) ==> r is Some && *r->Some_0 == old(self)@[*k] && final(self)@ == old(self)@.insert(*k, *final(r->Some_0)),
+            !old(self)@.contains_key(*k) ==> r is None && *final(self) == *old(self),
+    { unimplemented!() }
     #[verifier::external_body]
     pub fn contains_key(&self, k: &K) -> (r: bool)
         ensures r == self@.contains_key(*k),
